@@ -1032,7 +1032,7 @@ def _assigns(stmts, i):
     for s in stmts:
         if s[0] == "=":
             l = s[1]
-            used = [l[1]] if l[0] in ("s", "sl") else ([p[1] for p in l[1]] if l[0] == "cat" else list(l[1]))
+            used = [l[1]] if l[0] in ("s", "sl") else ([p[1] for p in l[1]] if l[0] in ("cat", "slcat") else list(l[1]))
             if i in used:
                 return True
         elif s[0] == "if":
@@ -1091,6 +1091,8 @@ def fragment_builder(spec):
                 return _Slice(sg[l[1]], l[2], l[3])
             if k == "cat":
                 return Cat(*[lh(x) for x in l[1]])
+            if k == "slcat":
+                return _Slice(Cat(*[lh(x) for x in l[1]]), l[2], l[3])
             if k == "arr":
                 return Array([sg[i] for i in l[1]])[ex(l[2])]
             raise ValueError(l)
@@ -1154,6 +1156,56 @@ def record_fragment(job):
     tr["mixed_arr"] = mixed_arr
     if _has_mixed_array(spec, spec["sig"]):
         tr["memfeat"] = "mixed-sign-array"
+    return tr
+
+
+LOWER_LHS_WIDTHS = [(a, b) for a in (1, 2, 3) for b in (1, 2, 3)] + [(a, b, c) for a in (1, 2) for b in (1, 2) for c in (1, 2)]
+
+
+def lower_lhs_spec(widths, mode):
+    """Cat(x0, x1, ..)[lo:hi].eq(i0[:hi - lo]) in sync, one register group per slice.
+    mode "inside": the slices that lie inside ONE element (_ComplexSliceLowerer turns them into a slice of that element); every
+    register also counts (x.eq(x + 1) before the slice assignment), so the bits outside the slice keep moving.
+    mode "crossing": the slices that cross an element boundary (slice proxy driving the whole Cat); nothing else drives the
+    registers.  mode "crossing-driven": crossing slices AND the counters (the proxy then is a second driver: a finding)."""
+    total = sum(widths)
+    bounds, acc = [], 0
+    for w in widths:
+        bounds.append((acc, acc + w))
+        acc += w
+    sigs = [{"w": 4, "s": 0, "reset": 0, "role": "in"}]
+    sync = []
+    for lo in range(total):
+        for hi in range(lo + 1, min(total, lo + 4) + 1):
+            ins = any(a <= lo and hi <= b for a, b in bounds)
+            if ins != (mode == "inside"):
+                continue
+            grp = []
+            for w in widths:
+                sigs.append({"w": w, "s": 0, "reset": 0, "role": "sync0", "reset_less": 0})
+                grp.append(len(sigs) - 1)
+            if mode != "crossing":
+                for j in grp:
+                    sync.append(["=", ["s", j], ["b", "+", ["s", j], ["c", 1]]])
+            sync.append(["=", ["slcat", [["s", j] for j in grp], lo, hi], ["sl", ["s", 0], 0, hi - lo]])
+    return {"sig": sigs, "dom": [["sys", 0]], "comb": [], "sync": [sync, []]}
+
+
+def record_lower_lhs(job):
+    widths, mode, seed, cycles = job
+    spec = lower_lhs_spec(tuple(widths), mode)
+    label = "slice of Cat on the left, elements %s, %s" % ("/".join(map(str, widths)), mode)
+    try:
+        tr = with_timeout(lambda: build_trace(fragment_builder(spec), "%s/lowerlhs" % seed, cycles, True, label=label), 120)
+    except Unsupported as ex:
+        return {"skip": str(ex), "spec": spec}
+    except _Timeout:
+        return {"skip": "the reference simulator did not finish within 120 s", "spec": spec}
+    tr["spec"] = spec
+    tr["seed"] = seed
+    tr["comb_cat"] = True
+    tr["mixed_arr"] = False
+    tr["sigfamily"] = "lowerlhs-" + mode
     return tr
 
 
